@@ -8,13 +8,15 @@ def c11(tier):
         for i, t in enumerate(TOPOS_QUICK):
             runs.append(H("c11_graphs", "asan", 500, t, timeout_per_case=20, params=dict(salt=i)))
     else:
-        # full (graph type x edge data x options) matrix under ASan/UBSan with asserts ...
+        # full (graph type x edge data x options) matrix under ASan/UBSan with asserts, larger inputs ...
         for i, t in enumerate(TOPOS_THOROUGH):
-            runs.append(H("c11_graphs_full", "asan", 2500, t, timeout_per_case=30, params=dict(salt=10 + i)))
+            over = t == "12,12,8"  # 32 threads on 16 cores: fewer cases
+            runs.append(H("c11_graphs_full", "asan", 400 if over else 1500, t, timeout_per_case=60 if over else 30,
+                          params=dict(salt=10 + i, big=1)))
         # ... and the representative subset as optimised NDEBUG code (no UBSan: also reaches the content
         # checks of the LC_Linear_Graph configurations whose misaligned edge records stop the asan runs)
         for i, t in enumerate([None, "4,4,4,4"]):
-            runs.append(H("c11_graphs", "plain", 4000, t, timeout_per_case=20, params=dict(salt=20 + i)))
+            runs.append(H("c11_graphs", "plain", 3000, t, timeout_per_case=20, params=dict(salt=20 + i, big=1)))
     return runs
 
 
